@@ -109,6 +109,9 @@ SUBST_MAPS = {
     "x:=y+1": lambda m, S: {S["x"]: m.Plus(S["y"], m.Int(1))},
     "a:=b": lambda m, S: {S["a"]: S["b"]},
     "x:=0,y:=x": lambda m, S: {S["x"]: m.Int(0), S["y"]: S["x"]},
+    # a map with four entries (walkers that switch to another code path for larger maps)
+    "4keys": lambda m, S: {S["x"]: m.Plus(S["y"], m.Int(2)), S["a"]: S["b"], S["r"]: m.Real(Fraction(1, 2)),
+                           S["u"]: m.BV(1, 2)},
 }
 PARSE_TEXTS = {
     "t1": "(declare-fun a () Bool)(declare-fun x () Int)(assert (and a (< x 3)))",
